@@ -153,6 +153,54 @@ def units(world):
             u.bounded_desc = "list.sort / selection executed for a stream of exactly %d candidates with symbolic scores" % n
             u.bounded_except = ("arguments-forwarded-to-the-stream",)
         return u
+    def mk_ctparse_any():
+        """ctparse() on a stream of ANY length N >= 1 of candidates (none of them None): the result is an element
+        of the stream and no element has a higher score.  list.sort enters through its trusted contract
+        (permutation + ascending keys, A-py); no unrolling."""
+        from pyvc.values import ObjSeq, ObjSeqElem
+        SCORE = z3.Function("cand.score", z3.IntSort(), z3.RealSort())
+
+        def setup(it, w):
+            P = mk_params(it)
+            n = z3.Int("N")
+            it.assume(n >= 1)
+            return [P, ObjSeq("stream", n, {"score": lambda b: SCORE(b)}), {}]
+
+        def call(it, w, a):
+            P, stream, seen = a
+
+            def gen_contract(it2, f2, args, kwargs):
+                seen["bound"] = it2.bind_args(f2, args, kwargs)
+                return stream
+            it.contracts = dict(it.contracts)
+            it.contracts["ctparse.ctparse_gen"] = gen_contract
+            it.contracts["ctparse._preprocess_string"] = lambda it2, f2, args, k: UTerm("preprocess", [args[0]], "str")
+            it.contracts["ctparse._get_labels"] = lambda it2, f2, args, k: UTerm("labels", [args[0]], "list")
+            return it.call(w.func("ctparse.ctparse"), [P["txt"], P["ts"]],
+                           {"timeout": P["timeout"], "debug": False, "relative_match_len": P["relative_match_len"],
+                            "max_stack_depth": P["max_stack_depth"], "scorer": P["scorer"], "latent_time": P["latent_time"]})
+
+        def ens(it, w, a, r):
+            P, stream, seen = a
+            n = stream.n
+            if not isinstance(r, ObjSeqElem):
+                return [("result-is-a-stream-element", ["C14"], False)]
+            rb = r.base
+            j0 = z3.Int("j0")
+            hints = []
+            for pi, inv, key_of in stream.sorts:
+                # ground instances of the (assumed) contract of sort, for the arbitrary element number j0
+                hints += [z3.Implies(z3.And(j0 >= 0, j0 < n), z3.And(inv(j0) >= 0, inv(j0) < n, pi(inv(j0)) == j0))]
+            goal_max = z3.Implies(z3.And(j0 >= 0, j0 < n), SCORE(j0) <= SCORE(rb))
+            for h in hints:
+                it.assume(h)
+            return [("result-is-a-stream-element", ["C14"], z3.And(rb >= 0, rb < n)),
+                    ("result-has-maximal-score", ["C14"], goal_max),
+                    ("sorted-exactly-once-by-score", ["C14"], len(stream.sorts) == 1)]
+        return FuncUnit("ctparse.ctparse[any n]", ["ctparse.ctparse"], ["C01", "C14", "C12"], setup, call, ens,
+                        prop_map={"safety": ["C01"], "frame": ["C12"]})
+    out.append(mk_ctparse_any())
+
     def mk_ctparse_defaults():
         """ctparse(txt) with every option omitted: what reaches the stream are the documented
         defaults, and the reference time is still undetermined (None -> read at call time)"""
